@@ -103,6 +103,7 @@ CheckFixOnly(r) ==
 \* located one-line syntax message and a non-zero status; never an unhandled exception
 CheckRobust(r) ==
   /\ Chk("C19_NoCrash", 0, r.outcome # "crash")
+  /\ Chk("C19_Terminates", 0, r.outcome # "hang")
   /\ Chk("C19_RejectionIsLocated", 0, r.outcome # "rejected" \/ r.located)
   /\ Chk("C19_RejectionIsAnError", 0, r.outcome # "rejected" \/ r.exit)
 
